@@ -34,18 +34,18 @@ let () =
   (* chainfr <src> <cap> <level> : LZ4_compress_HC_extStateHC_fastReset on the session context *)
   reg "chainfr" (function [src; cap; lvl] ->
       let src = bytes_of_hex src in
-      let r = compress_HC_fastReset_chain !cur (mem_of_list (z 0) src) (len src) (zs cap) (zs lvl) in
+      let r = compress_HC_fastReset_all !cur (mem_of_list (z 0) src) (len src) (zs cap) (zs lvl) in
       cur := r.cr_ctx; show r
     | _ -> "badargs");
   (* chainds <src> <target> <level> : LZ4_compress_HC_destSize; the session context becomes the resulting one *)
   reg "chainds" (function [src; target; lvl] ->
       let src = bytes_of_hex src in
-      let r = compress_HC_destSize_chain (mem_of_list (z 0) src) (len src) (zs target) (zs lvl) in
+      let r = compress_HC_destSize_all (mem_of_list (z 0) src) (len src) (zs target) (zs lvl) in
       cur := r.cr_ctx; show r
     | _ -> "badargs");
   reg "chainone" (function [src; cap; lvl] ->
       let src = bytes_of_hex src in
-      show (compress_HC_chain (mem_of_list (z 0) src) (len src) (zs cap) (zs lvl))
+      show (compress_HC_all (mem_of_list (z 0) src) (len src) (zs cap) (zs lvl))
     | _ -> "badargs");
   (* ssinit <dict> <prefix> *)
   reg "ssinit" (function [d; p] ->
